@@ -1,7 +1,7 @@
 /-
 C01: code generation for the side-effect-free expression fragment (literals, variables in the frame, casts, unary and
 binary operators), assembled from the pieces the C01 theorems are about: `castSeq`, `unSeq`, `opSeq`, `loadSeq`.
-It is the object of the (open) composition statement `C01_value_Statement` in Props/C01.lean.
+It is the object of the composition theorem `C01_value` in Props/C01.lean (proved in Lemmas/C01Value.lean).
 -/
 import ChibiVerif.Lemmas.C01MemLemmas
 
